@@ -38,6 +38,7 @@ from .xpath2_parser import XPath2Parser
 __all__ = ['XPath2Parser']
 
 COMPARISON_OPERATORS = frozenset(('eq', 'ne', 'lt', 'le', 'gt', 'ge'))
+OTHER_COMPARISON_SYMBOLS = frozenset(('=', '!=', '<', '>', '<=', '>=', 'is', '<<', '>>'))
 
 register = XPath2Parser.register
 infix = XPath2Parser.infix
@@ -510,7 +511,7 @@ def select__parenthesized_expression(self: XPathToken, context: ta.ContextType =
 @method('le', bp=30)
 @method('ge', bp=30)
 def led__value_comparison_operators(self: XPathToken, left: XPathToken) -> XPathToken:
-    if left.symbol in COMPARISON_OPERATORS:
+    if left.symbol in COMPARISON_OPERATORS or left.symbol in OTHER_COMPARISON_SYMBOLS:
         raise self.wrong_syntax()
     self[:] = left, self.parser.expression(rbp=30)
     return self
@@ -576,7 +577,7 @@ def evaluate__value_comparison_operators(self: XPathToken, context: ta.ContextTy
 # Node comparison
 @method('is', bp=30)
 def led__node_comparison(self: XPathToken, left: XPathToken) -> XPathToken:
-    if left.symbol == 'is':
+    if left.symbol in COMPARISON_OPERATORS or left.symbol in OTHER_COMPARISON_SYMBOLS:
         raise self.wrong_syntax()
     self[:] = left, self.parser.expression(rbp=30)
     return self
@@ -619,6 +620,15 @@ def evaluate__node_comparison(self: XPathToken, context: ta.ContextType = None) 
                         return False if symbol == '<<' else True
         else:
             raise self.error('FOCA0002', "operands are not nodes of the XML tree!")
+
+
+@method('<<')
+@method('>>')
+def led__node_order_comparison(self: XPathToken, left: XPathToken) -> XPathToken:
+    if left.symbol in COMPARISON_OPERATORS or left.symbol in OTHER_COMPARISON_SYMBOLS:
+        raise self.wrong_syntax()
+    self[:] = left, self.parser.expression(rbp=30)
+    return self
 
 
 ###
